@@ -237,6 +237,14 @@ def run_mixture(key):
         'model', 'lead', 'K', 'D', 'N', 'wca', 'sal', 'opt', 'its', 'seed'))
     lead = tuple(lead)
     wca = tuple(wca) if isinstance(wca, (list, tuple)) else wca
+    wca_alone = wca
+    if wca == 'pos_last':
+        # the sample axis named by its POSITIVE index in the (..., K, N) affiliation (same meaning as (-1,))
+        wca, wca_alone = (len(lead) + 1,), (1,)
+    trainer_kw = None
+    if isinstance(opt, str) and opt.endswith('+eps'):
+        opt = opt[:-4]
+        trainer_kw = dict(eps=1e-2)       # constructor argument of GMMTrainer (non-default value)
     cplx = model in M.COMPLEX_OBS
     y = A.generic_data(seed, lead + (N, D), 'c06mm', model, complex_=cplx)
     scale = 1.0 + np.arange(int(np.prod(lead))).reshape(lead)
@@ -264,10 +272,12 @@ def run_mixture(key):
         opts['covariance_type'] = opt
     y.setflags(write=False)
     init.setflags(write=False)
-    st, e = _call(lambda: M.fit(model, y, init, its, **opts))
+    st, e = _call(lambda: M.fit(model, y, init, its, trainer_kw=trainer_kw, **opts))
     if e is not None:
         if key['short'] != 'plain':
             return trivial('stacked fit raised on degenerate slice: ' + type(e).__name__)
+        if 'ill-defined empirical covariance' in str(e):
+            return trivial('Gaussian covariance guard (EM collapsed a class onto too few points)')
         return viol(f'{model}: stacked fit raised on regular data: {e!r}')
     fs = M.fields(model, st)
     post, e = _call(lambda: M.predict(model, st, y))
@@ -277,12 +287,13 @@ def run_mixture(key):
     n = 0
     for idx in np.ndindex(*lead):
         o1 = dict(opts)
+        o1['weight_constant_axis'] = wca_alone
         if sal is not None:
             o1['saliency'] = sal[idx]
         one, e = _call(lambda: M.fit(model, np.ascontiguousarray(y[idx]), np.ascontiguousarray(init[idx]),
-                                     its, **o1))
+                                     its, trainer_kw=trainer_kw, **o1))
         if e is not None:
-            if key['short'] != 'plain':
+            if key['short'] != 'plain' or 'ill-defined empirical covariance' in str(e):
                 continue
             return viol(f'{model}: slice {idx} alone raised {e!r}')
         f1 = M.fields(model, one)
@@ -372,7 +383,7 @@ def subchecks(tier, seed):
 
     def mix_cases():
         for model, optlist in (('cacgmm', ('eigenvalue', 'trace', False)), ('cwmm', ('default',)),
-                               ('cbmm', ('default',)), ('gmm', ('full', 'diagonal', 'spherical')),
+                               ('cbmm', ('default',)), ('gmm', ('full', 'diagonal', 'spherical', 'full+eps')),
                                ('vmfmm', ('default',))):
             for lead in shapes:
                 if len(lead) == 3 and max(lead) == 3 and not thorough:
@@ -382,10 +393,14 @@ def subchecks(tier, seed):
                 for K in (2, 3):
                     D = 3 if model != 'cbmm' else 2
                     N = K * (D + 2) + 2
-                    for wca in ((-1,), -2):
+                    for wca in ((-1,), -2, 'pos_last'):
                         for salk in ('none', 'graded'):
                             for opt in optlist:
-                                for its in (1, 3):
+                                for its in (1, 3) + ((12,) if opt == 'full+eps' else ()):
+                                    if wca == 'pos_last' and (salk != 'none' or K == 3 or opt not in optlist[:1]):
+                                        continue
+                                    if opt == 'full+eps' and (its != 12 or wca != (-1,) or salk != 'none'):
+                                        continue
                                     for short in (('plain', 'short', 'extreme') if model == 'cacgmm'
                                                   else ('plain', 'extreme')):
                                         if not thorough and (K == 3 and (salk != 'none' or its == 1)):
